@@ -156,7 +156,19 @@ class _Timeout(BaseException):
 
 
 def measure(args):
-    """one family instance under a wall-clock budget (an exponential blow-up must not hang the check)"""
+    """one family instance under a wall-clock budget (an exponential blow-up must not hang the check): the
+    measurement runs in a child process that is killed when the budget is exceeded by more than a few
+    seconds - a signal alone cannot interrupt a single regex match"""
+    from ..common import run_killable
+    r = run_killable(_measure_inner, args, BUDGET_S + 8)
+    if r is None or (isinstance(r, tuple) and r and r[0] == "__error__"):
+        name, k = args
+        text = FAMILIES[name](k)
+        return (name, k, len(text), "TIMEOUT", 0, 0, 0, float(BUDGET_S + 8), text)
+    return r
+
+
+def _measure_inner(args):
     import signal
     name, k = args
     text = FAMILIES[name](k)
@@ -201,11 +213,22 @@ def classify_growth(replay):
 
 
 def measure_family(args):
-    """sizes in ascending order; stop at the first size that times out or grows too fast"""
+    """sizes in ascending order; stop at the first size that times out or grows too fast.  The whole family
+    runs in one killable child; only if that child had to be killed (a hang inside C code) are the
+    instances repeated one by one, each in a child of its own"""
+    from ..common import run_killable
     name, ks = args
+    r = run_killable(_measure_family_inner, (name, ks, False), (BUDGET_S + 2) * len(ks) + 5)
+    if r is not None and not (isinstance(r, tuple) and r and r[0] == "__error__"):
+        return r
+    return _measure_family_inner((name, ks, True))
+
+
+def _measure_family_inner(args):
+    name, ks, isolated = args
     rows = []
     for k in ks:
-        r = measure((name, k))
+        r = measure((name, k)) if isolated else _measure_inner((name, k))
         rows.append(r)
         if r[3] == "TIMEOUT" or (len(rows) > 1 and rows[-2][3] == "OK" and r[3] == "OK" and too_fast(rows[-2], r)):
             break
@@ -247,7 +270,17 @@ LEX_BUDGET_S = 10
 
 
 def lex_time(args):
-    """wall time of lexing one adversarial literal, under a budget (a catastrophic regex must not hang the check)"""
+    """wall time of lexing one adversarial literal, under a budget (a catastrophic regex must not hang the
+    check: the scan runs in a child process that is killed when it exceeds the budget)"""
+    from ..common import run_killable
+    r = run_killable(_lex_time_inner, args, LEX_BUDGET_S + 3)
+    if r is None or (isinstance(r, tuple) and r and r[0] == "__error__"):
+        name, n = args
+        return name, n, len(REGEX_FAMILIES[name](n)), float(LEX_BUDGET_S) + 3
+    return r
+
+
+def _lex_time_inner(args):
     import signal
     name, n = args
     from ..pylex import py_scan
@@ -330,7 +363,13 @@ def run(ctx):
     ctx.extra["families"] = {name: [(r[1], r[2], r[4], r[5]) for r in sorted(rows, key=lambda r: r[1]) if r[3] == "OK"] for name, rows in by.items()}
     # adversarial literal families: wall time with wide margins, and linear growth of time is not asserted
     sizes = [24, 200, 2000] if ctx.quick() else [24, 200, 2000, 20000]
-    lres = [lex_time((n, s)) for n in REGEX_FAMILIES for s in sizes]      # serial: signal-based budget
+    lres = []
+    for fam in REGEX_FAMILIES:      # serial; a family is abandoned at the first size that exhausts the budget
+        for sz in sizes:
+            r = lex_time((fam, sz))
+            lres.append(r)
+            if r[3] > LEX_BUDGET_S:
+                break
     for name, n, size, wall in lres:
         n_eval += 1
         limit = 2.0 if size < 5000 else 8.0
